@@ -686,6 +686,57 @@ pub fn c10_conc(sc: &Scenario, hx: &Hx, v: &mut Verdict) {
             v.fail("C10", sig, f.msg, f.event);
         }
     }
+    // What a sweep expired is gone for good, entry and weight: at quiescence no store entry still
+    // carries an id the sweeper expired, none of those ids is still charged, and -- if an
+    // UpdateWeight for such an id was being applied while the sweeper expired it -- the total equals
+    // the sum of what is still charged (the expired key's weight was released in full).
+    if hx.first_shutdown_inv().is_none() {
+        if let Some(o) = hx.obs_named("pre") {
+            let expired: Vec<(u64, u64)> = hx.hooks.iter().filter_map(|h| if let Hook::SweepExpired { id, .. } = &h.2 { Some((h.0, *id)) } else { None }).collect();
+            for (s, id) in &expired {
+                if let Some(e) = o.store.iter().find(|e| e.1 == *id) {
+                    v.fail(
+                        "C10",
+                        "C10/expired-by-the-sweeper-but-still-held/conc".into(),
+                        format!("the sweeper expired id {} (k{}), yet at quiescence the store still holds that entry (charged: {:?})", id, e.0, o.weights.iter().find(|w| w.0 == *id).map(|w| w.3)),
+                        *s,
+                    );
+                }
+                if let Some(w) = o.weights.iter().find(|w| w.0 == *id) {
+                    v.fail(
+                        "C10",
+                        "C10/weight-not-reclaimed/conc".into(),
+                        format!("the sweeper expired id {} (k{}), yet at quiescence the id is still charged {}", id, w.1, w.3),
+                        *s,
+                    );
+                }
+            }
+            // an UpdateWeight of the same id being applied around the moment the sweeper expired it
+            let mut raced: Option<u64> = None;
+            for (s, id) in &expired {
+                let next_sweeper_event = hx.hooks.iter().find(|h| h.0 > *s && h.1 == "sweeper").map(|h| h.0).unwrap_or(u64::MAX);
+                for w in hx.writes.iter().filter(|w| w.cmd_kind.as_deref() == Some("UpdateWeight") && w.key_id == *id) {
+                    if let (Some(b), Some((e, _))) = (w.apply_begin, w.apply_end) {
+                        if b < next_sweeper_event && *s < e {
+                            raced = Some(*id);
+                        }
+                    }
+                }
+            }
+            if let Some(id) = raced {
+                v.probes.push("race.update_weight_applied_while_sweeper_expired_the_id");
+                let sum: i64 = o.weights.iter().map(|w| w.3).sum();
+                if sum != o.weight_used {
+                    v.fail(
+                        "C10",
+                        "C10/weight-not-released-in-full/race=update-weight-overlapped-sweep-of-same-id".into(),
+                        format!("the sweeper expired id {} while a weight update of it was being applied; at quiescence total_weight_used() = {} but the charged weights sum to {}", id, o.weight_used, sum),
+                        hx.len,
+                    );
+                }
+            }
+        }
+    }
     if expired_any {
         v.probes.push("sweep_expired_an_entry");
     }
